@@ -245,4 +245,15 @@ PROPS = {
         assumptions=["'adjacent' is read as 8-adjacent to background or the image edge; in External mode a contour is required only for components not enclosed by another component",
                      "shape bounds: fill_rect = the rect; stroke_rect = rect grown by the stroke width; lines/polygons = inclusive vertex bounding box grown by the width when width > 1",
                      "coordinates with |c| > 2^30-8 are run on guard pages but bounds disagreements are only counted; index panics are 'no result'"]),
+    "C10": dict(
+        gen=dict(script="modelgen.py", args=["--family", "singleop,patterns,dag,cflow"]),
+        steps=[native("modelcheck", ["c10"], shards=4)],
+        floor={Q: 20000, T: 200000},
+        assumptions=[
+            "claims are read from the real graph-level driver through the capture_sym_values hook, i.e. after simplification and complexity capping, exactly as the optimiser consumes them",
+            "symbols are bound from the declared input dims of the concrete inputs; an unbound synthetic symbol is bound by its first bare sighting and must then be used consistently",
+            "expressions whose exact value leaves the i32 range, divide by zero or broadcast incompatible sizes claim nothing here (C11 owns expression arithmetic); Div with a negative operand accepts floor or truncation",
+            "operators and attribute settings come from the generator's catalogue (gen/onnxgen/ops.py)",
+        ],
+    ),
 }
